@@ -29,6 +29,16 @@ structure UseSite where
   n : Nat
   deriving DecidableEq, Repr
 
+/-- a package-level variable that is written outside `init` (process-level mutable state): assignment to
+    it / its fields / its elements (`assign@Func`), its address taken (`addr@Func`), a method called on it
+    (`call:Method`).  `pkg` starts with `extern:` for a variable of another package. -/
+structure PkgVar where
+  pkg : String
+  name : String
+  ty : String
+  writes : List String
+  deriving DecidableEq, Repr
+
 end Sif.Det
 
 /-!
